@@ -18,14 +18,21 @@ import (
 	"verifharness/hx"
 )
 
+type jitem struct {
+	Shape string `json:"shape"` // a: struct{Key string} | pa: pointer to it | b: struct{Key S} (Stringer) | c: no field Key | d: Key is an int | i: not a struct
+	Param string `json:"param"`
+	M     int    `json:"m"`
+}
+
 type jop struct {
-	Op    string `json:"op"` // sub close wake start pub snap
-	N     int    `json:"n,omitempty"`
-	NS    string `json:"ns,omitempty"`
-	Kind  string `json:"kind,omitempty"`
-	Param string `json:"param,omitempty"`
-	J     int    `json:"j,omitempty"` // wake: index among n's blocked waiters
-	M     int    `json:"m,omitempty"`
+	Op    string  `json:"op"` // sub close wake start pub puba snap
+	Items []jitem `json:"items,omitempty"`
+	N     int     `json:"n,omitempty"`
+	NS    string  `json:"ns,omitempty"`
+	Kind  string  `json:"kind,omitempty"`
+	Param string  `json:"param,omitempty"`
+	J     int     `json:"j,omitempty"` // wake: index among n's blocked waiters
+	M     int     `json:"m,omitempty"`
 }
 
 type jcase struct {
@@ -64,9 +71,74 @@ type notifier struct {
 	closed    bool
 }
 
+// message shapes for PublishArray (the field looked up is "Key")
+type strS struct{ str string }
+
+func (k strS) String() string { return k.str }
+
+type itemA struct {
+	Key string
+	ID  int
+}
+type itemB struct {
+	Key strS
+	ID  int
+}
+type itemC struct {
+	Other string
+	ID    int
+}
+type itemD struct {
+	Key int
+	ID  int
+}
+
+func mkItem(it jitem) interface{} {
+	switch it.Shape {
+	case "a":
+		return itemA{it.Param, it.M}
+	case "pa":
+		return &itemA{it.Param, it.M}
+	case "b":
+		return itemB{strS{it.Param}, it.M}
+	case "c":
+		return itemC{it.Param, it.M}
+	case "d":
+		return itemD{len(it.Param), it.M}
+	}
+	return it.M
+}
+
+// the param PublishArray is documented to find: a string field, or one with a String method
+func (it jitem) effParam() string {
+	switch it.Shape {
+	case "a", "pa", "b":
+		return it.Param
+	}
+	return ""
+}
+
+func msgID(data interface{}) int {
+	switch v := data.(type) {
+	case int:
+		return v
+	case itemA:
+		return v.ID
+	case *itemA:
+		return v.ID
+	case itemB:
+		return v.ID
+	case itemC:
+		return v.ID
+	case itemD:
+		return v.ID
+	}
+	return -1
+}
+
 func (n *notifier) Notify(key string, data interface{}) error {
 	n.w.mu.Lock()
-	n.w.log = append(n.w.log, delivery{n.id, key, data.(int)})
+	n.w.log = append(n.w.log, delivery{n.id, key, msgID(data)})
 	n.w.mu.Unlock()
 	return nil
 }
@@ -96,6 +168,7 @@ func (n *notifier) errCalls() int {
 type pubsub interface {
 	Subscribe(subscribe.INotifier, string, string, string) error
 	Publish(string, string, string, interface{}) error
+	PublishArray(string, string, string, []interface{}) error
 	VerifSnapshot() map[string][]subscribe.INotifier
 	VerifQueueLens() (int, int)
 	VerifStart()
@@ -111,7 +184,7 @@ type driver struct {
 	s        pubsub
 	w        *world
 	nots     map[int]*notifier
-	base     int // goroutines that exist apart from blocked waiters
+	why      string
 	waiters  []waiter
 	started  bool
 	sentinel int
@@ -128,7 +201,7 @@ func poll(cond func() bool) bool {
 		}
 		runtime.Gosched()
 	}
-	deadline := time.Now().Add(5 * time.Second)
+	deadline := time.Now().Add(20 * time.Second)
 	for !cond() {
 		if time.Now().After(deadline) {
 			return false
@@ -138,10 +211,17 @@ func poll(cond func() bool) bool {
 	return true
 }
 
+// Goroutine accounting is COMPUTED, never re-measured per case (a measurement could catch a
+// transient runtime goroutine, e.g. the finalizer goroutine while it runs): g0 goroutines
+// existed when main started, every started subPub adds one process goroutine for ever, and the
+// only other goroutines are the waiters that are still blocked.
+var g0, processes int
+
 func (d *driver) waitGoroutines() {
-	want := d.base + len(d.waiters)
+	want := g0 + processes + len(d.waiters)
 	if !poll(func() bool { return runtime.NumGoroutine() == want }) {
 		d.hung = true
+		d.why = fmt.Sprintf("goroutines: %d, expected %d (= %d at start + %d process + %d blocked waiters)", runtime.NumGoroutine(), want, g0, processes, len(d.waiters))
 	}
 }
 
@@ -171,11 +251,13 @@ func (d *driver) barrier() {
 	_ = d.s.Subscribe(sn, "\x00sentinel", "s", fmt.Sprint(d.sentinel))
 	if !poll(listed) {
 		d.hung = true
+		d.why = "a subscription queued after everything else was never registered"
 		return
 	}
 	close(sn.shared)
 	if !poll(func() bool { return !listed() }) {
 		d.hung = true
+		d.why = "an unsubscription queued after everything else was never handled"
 		return
 	}
 	d.waitGoroutines()
@@ -209,14 +291,12 @@ type oracle struct {
 func exec(jc jcase) {
 	w := &world{}
 	d := &driver{w: w, nots: map[int]*notifier{}}
-	before := runtime.NumGoroutine()
 	if jc.Paused {
 		d.s = subscribe.VerifNewPaused()
-		d.base = before
 	} else {
 		d.s = subscribe.NewSubPub()
 		d.started = true
-		d.base = before + 1
+		processes++
 	}
 	or := &oracle{active: map[regKey]int{}, uncertain: map[regKey]bool{}, closedN: map[int]bool{}, early: map[regKey]bool{}, lastSeen: map[regKey]int{}}
 	not := func(id int) *notifier {
@@ -232,7 +312,7 @@ func exec(jc jcase) {
 	}
 
 	var coq []string
-	add := func(op, obs string) { coq = append(coq, hx.CoqPair(op, obs)) }
+	add := func(op, obs string) { coq = append(coq, hx.CoqApp("St", op, obs)) }
 	pubs, subs, fires := 0, 0, 0
 	dupSub, earlyClose := false, false
 
@@ -355,7 +435,7 @@ func exec(jc jcase) {
 			}
 			d.s.VerifStart()
 			d.started = true
-			d.base++
+			processes++
 			for _, rk := range or.pending {
 				or.active[rk]++
 			}
@@ -373,10 +453,10 @@ func exec(jc jcase) {
 			pubs++
 			el := make([]string, len(log))
 			for i, dl := range log {
-				el[i] = hx.CoqTuple(hx.CoqN(uint64(dl.n)), coqStr(dl.key), hx.CoqN(uint64(dl.m)))
+				el[i] = hx.CoqApp("D", hx.CoqN(uint64(dl.n)), coqStr(dl.key), hx.CoqN(uint64(dl.m)))
 			}
 			add(hx.CoqApp("HPub", coqStr(o.NS), coqStr(o.Kind), coqStr(o.Param), hx.CoqN(uint64(o.M))),
-				hx.CoqApp("OLog", hx.CoqList(el, "nid * key * msg")))
+				hx.CoqApp("OLog", hx.CoqList(el, "dl")))
 			if !d.started {
 				break // nothing is registered before process runs; covered by the model
 			}
@@ -427,6 +507,85 @@ func exec(jc jcase) {
 					violate("delivery:to-unsubscribed-notifier", fmt.Sprintf("notifier %d has no registration under %q and was notified of %d", rk.n, rk.key, o.M), c, 0)
 				}
 			}
+		case "puba":
+			w.mu.Lock()
+			w.log = nil
+			w.mu.Unlock()
+			msgs := make([]interface{}, len(o.Items))
+			cit := make([]string, len(o.Items))
+			for i, it := range o.Items {
+				msgs[i] = mkItem(it)
+				cit[i] = hx.CoqApp("It", coqStr(it.effParam()), hx.CoqN(uint64(it.M)))
+			}
+			_ = d.s.PublishArray(o.NS, o.Kind, "Key", msgs)
+			w.mu.Lock()
+			log := append([]delivery{}, w.log...)
+			w.mu.Unlock()
+			pubs++
+			el := make([]string, len(log))
+			for i, dl := range log {
+				el[i] = hx.CoqApp("D", hx.CoqN(uint64(dl.n)), coqStr(dl.key), hx.CoqN(uint64(dl.m)))
+			}
+			add(hx.CoqApp("HPubArr", coqStr(o.NS), coqStr(o.Kind), hx.CoqList(cit, "item")),
+				hx.CoqApp("OLogArr", hx.CoqList(el, "dl")))
+			if !d.started {
+				break
+			}
+			// ---- oracle: per (key, notifier) the notified ids are >= 1 copies of the ids offered under that key
+			all := o.NS + "_" + o.Kind
+			offered := map[string][]int{}
+			for _, it := range o.Items {
+				offered[all] = append(offered[all], it.M)
+				if p := it.effParam(); p != "" {
+					offered[all+"_"+p] = append(offered[all+"_"+p], it.M)
+				}
+			}
+			gotSeq := map[regKey][]int{}
+			for _, dl := range log {
+				rk := regKey{dl.key, dl.n}
+				gotSeq[rk] = append(gotSeq[rk], dl.m)
+				if dl.m > or.lastSeen[rk] {
+					or.lastSeen[rk] = dl.m
+				}
+			}
+			run.OracleChecked(1)
+			for k, ids := range offered {
+				for rk, c := range or.active {
+					if rk.key == k && c > 0 && !or.uncertain[rk] {
+						run.OracleChecked(1)
+						g := gotSeq[rk]
+						ok := len(g) > 0 && len(g)%len(ids) == 0
+						for i := 0; ok && i < len(g); i++ {
+							ok = g[i] == ids[i%len(ids)]
+						}
+						if !ok {
+							sig := "delivery:array-not-in-publication-order"
+							if len(g) == 0 {
+								sig = "delivery:missed-by-registered-subscriber"
+							}
+							violate(sig, fmt.Sprintf("notifier %d registered under %q (%d times) was notified of %v by a PublishArray offering %v", rk.n, k, c, g, ids), g, ids)
+						}
+					}
+				}
+			}
+			for rk, g := range gotSeq {
+				if or.uncertain[rk] {
+					continue
+				}
+				if _, isKey := offered[rk.key]; !isKey {
+					violate("delivery:foreign-message", fmt.Sprintf("notifier %d notified under %q by PublishArray(%q,%q)", rk.n, rk.key, o.NS, o.Kind), g, nil)
+				}
+				if or.closedN[rk.n] {
+					run.OracleChecked(1)
+					sig := "silent-after-close:notified-after-unsubscription-handled"
+					if or.early[rk] {
+						sig = "silent-after-close:closed-before-registration-was-handled"
+					}
+					violate(sig, fmt.Sprintf("notifier %d, whose error channel is closed and whose unsubscriptions have all been handled, was notified of %v under %q", rk.n, g, rk.key), g, nil)
+				} else if or.active[rk] == 0 {
+					violate("delivery:to-unsubscribed-notifier", fmt.Sprintf("notifier %d has no registration under %q and was notified of %v", rk.n, rk.key, g), g, nil)
+				}
+			}
 		case "snap":
 			snap := d.s.VerifSnapshot()
 			keys := []string{}
@@ -442,7 +601,7 @@ func exec(jc jcase) {
 				for _, in := range snap[k] {
 					ids = append(ids, uint64(in.(*notifier).id))
 				}
-				el = append(el, hx.CoqPair(coqStr(k), hx.CoqNList(ids)))
+				el = append(el, hx.CoqApp("KR", coqStr(k), hx.CoqNList(ids)))
 				// oracle: a closed notifier whose unsubscriptions were handled is in no list
 				if d.started {
 					for _, in := range snap[k] {
@@ -459,12 +618,12 @@ func exec(jc jcase) {
 					}
 				}
 			}
-			add("HSnap", hx.CoqApp("OSnap", hx.CoqList(el, "key * list nid")))
+			add("HSnap", hx.CoqApp("OSnap", hx.CoqList(el, "kreg")))
 		}
 	}
 	if d.hung {
 		hungOnce = true
-		violate("hang:process-did-not-quiesce", "process did not handle the queued events within 5 s", "timeout", "quiescent")
+		violate("hang:process-did-not-quiesce", "process did not handle the queued events within 20 s: "+d.why, "timeout", "quiescent")
 	}
 	// tidy: wake everything that is still blocked so that goroutines do not pile up
 	for _, n := range d.nots {
@@ -486,9 +645,14 @@ func exec(jc jcase) {
 	if !d.started {
 		d.s.VerifStart()
 		d.started = true
-		d.base++
+		processes++
 	}
+	wasHung := d.hung
 	d.waitGoroutines()
+	if d.hung && !wasHung {
+		hungOnce = true
+		violate("hang:process-did-not-quiesce", "goroutines did not settle after the case: "+d.why, "timeout", "quiescent")
+	}
 
 	if dupSub {
 		run.Hist("case.duplicate-subscription")
@@ -497,7 +661,7 @@ func exec(jc jcase) {
 		run.Hist("case.closed-before-registered")
 	}
 	nontrivial := subs > 0 && pubs > 0 && fires > 0
-	run.AddCase(hx.CoqApp("Case", hx.CoqBool(jc.Paused), hx.CoqList(coq, "hop * hobs")), jc, fmt.Sprintf("%v", jc), nontrivial)
+	run.AddCase(hx.CoqApp("Case", hx.CoqBool(jc.Paused), hx.CoqList(coq, "hstep")), jc, fmt.Sprintf("%v", jc), nontrivial)
 }
 
 func contains(l []regKey, x regKey) bool {
@@ -585,10 +749,19 @@ func genCase(r *hx.Rand, paused bool, n int) jcase {
 			id := ids[r.Intn(len(ids))]
 			jc.Ops = append(jc.Ops, jop{Op: "wake", N: id, J: r.Intn(live[id])})
 			live[id]--
-		case c < 18:
+		case c < 16:
 			p := pick()
 			jc.Ops = append(jc.Ops, jop{Op: "pub", NS: p.ns, Kind: p.kind, Param: pm(), M: msg})
 			msg++
+		case c < 18:
+			p := pick()
+			o := jop{Op: "puba", NS: p.ns, Kind: p.kind}
+			shapes := []string{"a", "a", "a", "pa", "b", "c", "d", "i"}
+			for k := 1 + r.Intn(4); k > 0; k-- {
+				o.Items = append(o.Items, jitem{Shape: shapes[r.Intn(len(shapes))], Param: pm(), M: msg})
+				msg++
+			}
+			jc.Ops = append(jc.Ops, o)
 		default:
 			jc.Ops = append(jc.Ops, jop{Op: "snap"})
 		}
@@ -607,8 +780,9 @@ func genCase(r *hx.Rand, paused bool, n int) jcase {
 
 func main() {
 	run = hx.Start("C40", "Aurora.C40.Corr",
-		"histories of subscribe (1 in 4 duplicated on the same key) / close / one-sent-value wake / publish / registry dump over 4 (namespace, kind) pairs (two of which collide on key strings) x 5 params and up to 7 notifiers (shared error channel or one channel per waiter); normal cases quiesce process after every operation, paused cases queue 2..7 operations before the process goroutine is started (a close can then precede the handling of its own subscription); non-trivial = at least one subscription, one publish and one close/wake; distinct by the operation list")
+		"histories of subscribe (1 in 4 duplicated on the same key) / close / one-sent-value wake / Publish / PublishArray (1..4 messages of six field shapes) / registry dump over 4 (namespace, kind) pairs (two of which collide on key strings) x 5 params and up to 7 notifiers (shared error channel or one channel per waiter); normal cases quiesce process after every operation, paused cases queue 2..7 operations before the process goroutine is started (a close can then precede the handling of its own subscription); non-trivial = at least one subscription, one publish and one close/wake; distinct by the operation list")
 	r := run.R
+	g0 = runtime.NumGoroutine()
 
 	if run.Replay != "" {
 		var jc jcase
@@ -640,6 +814,10 @@ func main() {
 		{Ops: []jop{{Op: "sub", N: 1, NS: "ns", Kind: "k"}, {Op: "sub", N: 1, NS: "ns", Kind: "k"}, {Op: "sub", N: 4, NS: "ns", Kind: "k"}, {Op: "sub", N: 1, NS: "ns", Kind: "k"}, {Op: "wake", N: 1, J: 1}, {Op: "snap"}, {Op: "pub", NS: "ns", Kind: "k", M: 1}, {Op: "close", N: 1}, {Op: "snap"}, {Op: "pub", NS: "ns", Kind: "k", M: 2}}},
 		// namespace-wide and specific subscribers; key-string collision a|b_k == a_b|k
 		{Ops: []jop{{Op: "sub", N: 2, NS: "a", Kind: "b_k"}, {Op: "sub", N: 4, NS: "a_b", Kind: "k", Param: "x"}, {Op: "sub", N: 6, NS: "a", Kind: "b_k", Param: "y"}, {Op: "pub", NS: "a_b", Kind: "k", Param: "x", M: 1}, {Op: "pub", NS: "a", Kind: "b_k", Param: "y", M: 2}, {Op: "pub", NS: "a", Kind: "b_k", M: 3}, {Op: "close", N: 4}, {Op: "pub", NS: "a", Kind: "b_k", Param: "x", M: 4}, {Op: "snap"}}},
+		// PublishArray: grouping by key, every field shape
+		{Ops: []jop{{Op: "sub", N: 2, NS: "ns", Kind: "k"}, {Op: "sub", N: 4, NS: "ns", Kind: "k", Param: "x"}, {Op: "sub", N: 4, NS: "ns", Kind: "k", Param: "x"}, {Op: "sub", N: 6, NS: "ns", Kind: "k", Param: "y"},
+			{Op: "puba", NS: "ns", Kind: "k", Items: []jitem{{"a", "x", 1}, {"pa", "y", 2}, {"b", "x", 3}, {"c", "x", 4}, {"d", "x", 5}, {"i", "x", 6}, {"a", "", 7}}},
+			{Op: "close", N: 4}, {Op: "puba", NS: "ns", Kind: "k", Items: []jitem{{"a", "x", 8}, {"a", "y", 9}}}, {Op: "snap"}}},
 		// subscribing with an already closed channel
 		{Ops: []jop{{Op: "sub", N: 2, NS: "ns", Kind: "k"}, {Op: "close", N: 2}, {Op: "sub", N: 2, NS: "ns", Kind: "k"}, {Op: "snap"}, {Op: "pub", NS: "ns", Kind: "k", M: 1}}},
 	} {
@@ -649,10 +827,10 @@ func main() {
 	}
 
 	// ---- generated histories
-	for i := 0; i < run.N(320, 6000) && !hungOnce; i++ {
+	for i := 0; i < run.N(200, 4000) && !hungOnce; i++ {
 		exec(genCase(r, false, 6+r.Intn(18)))
 	}
-	for i := 0; i < run.N(160, 3000) && !hungOnce; i++ {
+	for i := 0; i < run.N(100, 2000) && !hungOnce; i++ {
 		exec(genCase(r, true, 6+r.Intn(14)))
 	}
 	run.Finish()
